@@ -48,6 +48,7 @@ type vC06Lookup struct {
 	Reason     string
 	Lookups    int // distinct lookup ids seen
 	Terminated bool
+	TermVT     time.Time
 	Responses  int
 	Order      []string
 }
@@ -61,6 +62,7 @@ func vC06Derive(n *vNet, evs []vLookupEv, key string, k int) *vC06Lookup {
 		ids[ev.ID.String()] = true
 		if ev.Terminate != nil {
 			d.Terminated = true
+			d.TermVT = e.VT
 			d.Reason = ev.Terminate.Reason.String()
 			continue
 		}
@@ -484,6 +486,13 @@ func vC06GenProv(c *vh.Case, optim bool) vC06ProvSc {
 			sc.Cfg.N = sc.Cfg.K + 2 + r.Intn(40)
 		}
 		sc.EstFactor = []float64{0.25, 1, 1, 4}[r.Intn(4)]
+		if r.Intn(10) < 7 {
+			// with fewer than K peers known the code's average-distance rule stops the walk at once: mostly seed >= K
+			sc.Cfg.Seeds = sc.Cfg.K + 1 + r.Intn(5)
+			if sc.Cfg.N < 3*sc.Cfg.K {
+				sc.Cfg.N = 3*sc.Cfg.K + r.Intn(60)
+			}
+		}
 	}
 	return sc
 }
@@ -717,7 +726,15 @@ func vC06RunProvide(t *testing.T, c *vh.Case, sc vC06ProvSc) {
 		c.Check(len(strangers) == 0, "optimistic-only-learned", "ADD_PROVIDER sent to peers the lookup never learned: %v", strangers)
 		c.Check(len(twice) == 0, "optimistic-nobody-twice", "ADD_PROVIDER sent more than once: %v", twice)
 		c.Obs("optimistic_extra_recipients", len(sends)-len(d.R)+len(missing))
-		if len(sends) > len(d.R) {
+		early := 0
+		for _, ss := range sends {
+			if ss[0].VT.Before(d.TermVT) {
+				early++
+			}
+		}
+		c.Obs("optimistic_early_stores", early)
+		c.Obs("lookup_reason_"+d.Reason, 1)
+		if early > 0 {
 			c.Clause("optimistic-early-store-seen")
 		}
 	}
